@@ -1,6 +1,6 @@
 package main
 
-// Atomic-region facts (properties C30, C32, C33): for a named function, the sequence of
+// Atomic-region facts (properties C17, C30, C32, C33): for a named function, the sequence of
 // lock / unlock events of ONE mutex expression and of read / write events of a few shared
 // resources, in source order, as an instruction list of lean/Aurora/Model/LockSetProg.lean.
 // The Props files check on these lists (by `decide`) that the check and the act of a
@@ -102,7 +102,28 @@ func init() {
 			upd("PutTransferTraffic", "localTraffic", "transferTraffic", "PutTransferTraffic", 3, 1),
 		},
 	}
-	for _, sp := range []regionSpec{cs, ap, tr} {
+	ciPats := []resPat{
+		{kind: "call", text: "ci.pyramidCheck", loc: 0},
+		{kind: "call", text: "ci.getPyramid", loc: 0},
+		{kind: "call", text: "ci.getPyramidHash", loc: 0},
+		{kind: "call", text: "ci.chunkPutChanUpdate", write: true, loc: 0},
+		{kind: "call", text: "ci.DelChunkInfoSource", write: true, loc: 0},
+		{kind: "call", text: "ci.queues.Delete", write: true, loc: 0},
+		{kind: "call", text: "ci.CancelFindChunkInfo", write: true, loc: 0},
+	}
+	cir := regionSpec{
+		out: "ChunkInfoRegions.lean", ns: "ChunkInfoRegions", file: "pkg/chunkinfo/chunkinfo.go",
+		doc: "lock 0 = ChunkInfo.syncLk; location 0 = the records chunkinfo keeps for the file (pyramid, availability, discovery, source tables, " +
+			"pull queue, pending finder) — reads: ci.pyramidCheck / ci.getPyramid / ci.getPyramidHash, writes: ci.chunkPutChanUpdate(…) " +
+			"(every table update goes through it), ci.DelChunkInfoSource, ci.queues.Delete, ci.CancelFindChunkInfo",
+		funcs: []regionFunc{
+			{fn: "OnChunkRetrieved", recv: "ChunkInfo", mutex: "ci.syncLk", pats: ciPats},
+			{fn: "OnChunkTransferred", recv: "ChunkInfo", mutex: "ci.syncLk", pats: ciPats},
+			{fn: "DelFile", recv: "ChunkInfo", mutex: "ci.syncLk", pats: ciPats},
+			{fn: "DelDiscover", recv: "ChunkInfo", mutex: "ci.syncLk", pats: ciPats},
+		},
+	}
+	for _, sp := range []regionSpec{cs, ap, tr, cir} {
 		sp := sp
 		extraGenerators[sp.out] = func(repo string) (string, error) { return genRegions(repo, sp) }
 	}
